@@ -101,7 +101,7 @@ FOLD_ATTACKS = [
 ]
 
 
-LEAF_TEXT = {'num': '3', 'true': 'True', 'none': 'None', 'str': "'a'", 'bytes': "b'a'", 'ellipsis': '...', 'name': 'zq_canary_name',
+LEAF_TEXT = {'num': '3', 'inf': '1e999', 'imag': '2j', 'infimag': '1e999j', 'true': 'True', 'none': 'None', 'str': "'a'", 'bytes': "b'a'", 'ellipsis': '...', 'name': 'zq_canary_name',
              'call': '__import__("zq_canary_mod")', 'attr': 'zq_canary_name.real', 'fstr': 'f"{zq_canary_name}"'}
 UN_TEXT = {'uadd': '+', 'usub': '-', 'invert': '~', 'not': 'not '}
 BIN_TEXT = {'Add': '+', 'Sub': '-', 'Mult': '*', 'Div': '/', 'FloorDiv': '//', 'Mod': '%', 'Pow': '**', 'LShift': '<<', 'RShift': '>>', 'BitOr': '|',
